@@ -9,6 +9,7 @@ Mako's text.  A second, small grid places named blocks at every pair of position
 the compile-time rejections.
 """
 
+import collections
 import hashlib
 import json
 import os
@@ -35,7 +36,8 @@ RULE = (
     "(de-duplicated per grid; grids differ in their probe lists). Non-trivial = L >= 3, or a member name or the "
     "attribute declared at two or more levels (something is overridden). Error grid: every single position, every "
     "ordered pair of positions x same/different name, block inside block, def+block of one name, pairs of "
-    "anonymous blocks; each also as the base of a two-level chain."
+    "anonymous blocks; each also as the base of a two-level chain. Family J: a state is an ordered pair of consecutive "
+    "renders (base x then base y) of one prefix on one lookup."
 )
 LEVEL_TEXT = (
     "Every chain of the stated grids is executed on the real code and compared character by character with the "
@@ -55,6 +57,8 @@ ASSUMPTIONS = [
     "`next` in the most-derived template and `parent` in the base-most one are not defined by the statement: never generated",
     "a dynamic inherit target that evaluates to None means 'no parent' at any level (Mako's behaviour for the rendered template, test_inheritance.test_dynamic; the statement's 'base-most ancestor' is then that level); templates behind it are never reached",
     "Template.get_def(name).render*() on a template that inherits: the def runs as called on that template (self = local = the template, parent = its inherit target, no next), the chain starting at that template; what the context holds under 'parent'/'next' is read with Context.get (documented) through the helper U",
+    "<%include>: the included template is rendered as a chain of its own with no page arguments and nothing of the includer's self/local/parent/next (DESIGN appendix A6)",
+    "Template objects are shared by the chains a worker renders; a mismatch is re-run on fresh objects: if it disappears there it is reported as history-dependent, with the earlier chain that provokes it as a replayable prelude when one is found among the last 400 chains (else without replay); after 12 analysed mismatches per job the rest is only counted",
     "family G: a relative inherit target is joined to the directory of the template that contains the tag and is not normalised (DESIGN appendix A6, TemplateLookup.adjust_uri's documented behaviour); templates are registered with put_template under exactly that uri, stale registrations of earlier chains are removed from the lookup's collection before each render; uri resolution proper (all mechanisms, missing files) belongs to C07",
     "an inherit target read from context['self'].attr.X sees the levels attached so far, so X is declared at the same or a more-derived level; X declared further toward the base is not generated",
     "an unresolvable member is an AttributeError (documented: hasattr/getattr on namespaces); the probes P/A catch exactly that",
@@ -75,6 +79,8 @@ BOUNDS = {
         "F": "L=2..3, member {absent,def,block} x inherit target {static, context['upN'], context.get('upN') absent, bound to None} at every non-last level x chaining {none,next,self}",
         "H": "L<=4, the attribute at every level absent / string / None / 0 / '' / False / [], every body chained, read through self/local/parent/next .attr",
         "I": "L<=3, member {absent, def, def calling parent} x attribute x chaining {none,next}; every level declares def card() (local.uri, self.uri, uri of context's parent/next, local/self/parent member, self/local attribute); whole page + get_def('card') and get_def(member) of every level by render_unicode() and render_context()",
+        "J": "histories on one lookup: prefix [leaf] (two member names, 5 kinds each) or [leaf, mid] (one member name, chaining {none,next}) whose last level inherits from ${context['upN']}; 9 bases (each member absent/def/block) under uris of their own; 73 renders per prefix on one set of Template objects such that every ordered pair of distinct bases occurs once as consecutive renders; every render compared with the reference (= a fresh lookup)",
+        "K": "an including chain of 1 (control) or 2 levels, the <%include> in any of its bodies, and an included chain of 1 or 2 levels; one member name {absent, def, block, block calling parent} in every level of both; bodies print self/local/parent member and the uri the context holds under parent and next",
         "G": "L=3: every level in a directory of depth 0/1/2, inherit target spelled absolutely or relatively to the tag's own template (L2.html, sub/L2.html, ../L2.html, ../../site/L2.html ..), decoy templates (where the spelling would lead from any other level) on/off, member {absent,def}, chaining {none,next}; L=4: the same with member def and next.body() everywhere",
         "errors": "11 positions: singles, ordered pairs x same/different name, block-in-block, def+block, anonymous pairs (one line / own lines); standalone, as base of a 2-chain, and as base whose leaf overrides the block",
     },
@@ -87,6 +93,8 @@ BOUNDS = {
         "F": "L<=4",
         "H": "L<=5",
         "I": "L<=4",
+        "J": "as quick, the [leaf, mid] prefixes also with a second member name (4 patterns)",
+        "K": "adds including chains of 3 levels x included chains of 1..3 levels",
         "G": "L=3 and L=4, both with member {absent,def} and chaining {none,next}",
         "errors": "as quick",
     },
@@ -195,6 +203,7 @@ def _render_def(R, texts, main, ctx, name, via, callables):
 
 _runner = None
 _runner_pid = None
+_replay_runner = None
 
 
 def runner():
@@ -268,7 +277,8 @@ def check_chain(g, chain, seed, st, R=None, twice=False):
     exp, ref = ir.reference(prog, ctx)
     st.oracles["reference"] += 1
     R = R or runner()
-    obs = R.render(texts, prog["main"], ctx, ref.callables)
+    ncall = ref.callables + ref.included_callables + (4 if ref.included_callables else 0)
+    obs = R.render(texts, prog["main"], ctx, ncall)
     st.evaluations += 1
     st.traces += 1
     st.transitions += ref.steps
@@ -281,19 +291,65 @@ def check_chain(g, chain, seed, st, R=None, twice=False):
         st.extra["dontcare_def_for_block"] = st.extra.get("dontcare_def_for_block", 0) + 1
         return True, texts, exp, obs
     ok = exp == obs
-    if not ok:
-        st.violation(chain_sig(exp, obs, al), case, "reference: rendered output / error class differs from the class-chain model", expected=list(exp), observed=list(obs))
+    if not ok and st.extra.get("mismatches_analysed", 0) >= MAX_ANALYSED:
+        # plenty analysed in this job already (each analysis compiles fresh templates): count, do not analyse
+        st.violation("chain:further mismatches, not analysed", {"kind": "unreplayable", "family": fam, "seed": seed, "chain": [list(x) for x in chain], "files": texts}, "reference: rendered output / error class differs from the class-chain model", expected=list(exp), observed=list(obs))
+    elif not ok:
+        st.extra["mismatches_analysed"] = st.extra.get("mismatches_analysed", 0) + 1
+        # Template objects are shared by the chains of one worker: does the chain fail on objects of its own as well?
+        fresh = Runner().render(texts, prog["main"], ctx, ncall)
+        if fresh == exp:
+            report_order_dependent(g, chain, seed, st, R, case, exp, obs, al)
+        else:
+            st.violation(chain_sig(exp, obs, al), case, "reference: rendered output / error class differs from the class-chain model", expected=list(exp), observed=list(obs))
     elif twice:
         # state kept between renders would show on a second render of the same Template objects
         st.oracles["rerender"] += 1
         st.evaluations += 1
-        obs2 = R.render(texts, prog["main"], ctx, ref.callables)
+        obs2 = R.render(texts, prog["main"], ctx, ncall)
         if obs2 != obs:
             ok = False
             st.violation("chain:second render differs", dict(case, twice=True), "rerender: a second render of the same templates differs from the first", expected=list(exp), observed=list(obs2))
     if any(what == "card" for _v, what in probes):
         ok = check_defs(prog, texts, ctx, chain, al, case, st, R) and ok
+    HISTORY.append((g, chain))
     return ok, texts, exp, obs
+
+
+MAX_ANALYSED = 12
+HISTORY = collections.deque(maxlen=400)  # (grid, chain) of the chains this worker rendered, most recent last
+
+
+def _plain_render(g, chain, seed, R):
+    al = ir.alphabet(seed)
+    prog = ir.build_program(chain, al, g[3], g[4])
+    texts = ir.print_program(prog)
+    ctx = c06_env.resolve_ctx(prog["ctx"])
+    exp, ref = ir.reference(prog, ctx)
+    return exp, R.render(texts, prog["main"], ctx, ref.callables + ref.included_callables + 4), texts
+
+
+def report_order_dependent(g, chain, seed, st, R, case, exp, obs, al):
+    """the chain renders correctly on Template objects of its own but not on the worker's shared ones: something
+    was kept on a Template / module / lookup by an earlier render.  Look for one earlier chain (sharing a level
+    template) after which it fails on fresh objects too, so that the report replays by itself."""
+    mine = set(case["files"].items())
+    tried = 0
+    for hg, hchain in reversed(HISTORY):
+        if tried >= 60:
+            break
+        R2 = Runner()
+        _e, _o, htexts = _plain_render(hg, hchain, seed, R2)
+        if not (mine & set(htexts.items())):
+            continue
+        tried += 1
+        e2, o2, _t = _plain_render(g, chain, seed, R2)
+        if o2 != e2:
+            prelude = [{"kind": "chain", "family": hg[0], "seed": seed, "chain": [list(x) for x in hchain], "probes": [list(x) for x in hg[3]], "defsig": hg[4], "shared": True}]
+            st.violation("history:" + chain_sig(exp, o2, al), dict(case, shared=True, prelude=prelude), "rerender: the chain renders differently after an earlier chain was rendered with the same Template objects", expected=list(exp), observed=list(o2))
+            return
+    # not located: still a failure of this worker (seen on its shared objects, absent on fresh ones); no replay
+    st.violation("history:unlocated " + chain_sig(exp, obs, al), {"kind": "unreplayable", "family": g[0], "seed": seed, "chain": [list(x) for x in chain], "files": case["files"]}, "rerender: the chain renders differently on Template objects that earlier chains have used (no single earlier chain reproduces it)", expected=list(exp), observed=list(obs))
 
 
 def check_defs(prog, texts, ctx, chain, al, case, st, R):
@@ -314,8 +370,102 @@ def check_defs(prog, texts, ctx, chain, al, case, st, R):
                 if exp[0] != "dontcare" and obs != exp:
                     ok = False
                     sig = chain_sig(exp, obs, al).replace("chain:", "get_def:", 1)
-                    st.violation(sig, dict(case, entry={"level": j, "def": name, "via": via}), "reference: a def rendered through Template.get_def() differs from the def called on its template", expected=list(exp), observed=list(obs))
+                    n = st.extra.get("mismatches_analysed", 0)
+                    st.extra["mismatches_analysed"] = n + 1
+                    if n >= MAX_ANALYSED or _render_def(Runner(), texts, uris[j], ctx, name, via, ref.callables) == exp:
+                        # correct on Template objects of its own: something kept by earlier renders of this worker
+                        st.violation("history:unlocated " + sig if n < MAX_ANALYSED else "get_def:further mismatches, not analysed", {"kind": "unreplayable", "family": case["family"], "seed": case["seed"], "chain": case["chain"], "files": texts, "entry": {"level": j, "def": name, "via": via}}, "rerender: a def rendered through Template.get_def() differs on Template objects that earlier renders have used", expected=list(exp), observed=list(obs))
+                    else:
+                        st.violation(sig, dict(case, entry={"level": j, "def": name, "via": via}), "reference: a def rendered through Template.get_def() differs from the def called on its template", expected=list(exp), observed=list(obs))
     return ok
+
+
+# --------------------------------------------------------------------------
+# family J: histories of two renders on one lookup, the inherit target chosen by the context
+
+J_BASES = [(m1, m2) for m1 in ("-", "d", "b") for m2 in ("-", "d", "b")]
+
+
+def j_prefixes(tier):
+    """the inheriting part: [leaf] with two member names, [leaf, mid] with one (thorough: also with a second);
+    the last of them inherits from ${context['upN']}"""
+    out = []
+    kinds_leaf = ir._kinds("leaf")
+    for m1 in kinds_leaf:
+        for m2 in kinds_leaf:
+            out.append(((m1, m2, 0, 0, 0, 0, "d", "-"),))
+    for m1 in kinds_leaf:
+        for mm in ir._kinds("mid"):
+            for cc in ("-", "n"):
+                for a2, b2 in ([("-", "-")] if tier == "quick" else [("-", "-"), ("b", "b"), ("d", "bp"), ("bp", "d")]):
+                    out.append(((m1, a2, 0, 0, 0, 0, "s", "-"), (mm, b2, 0, 0, 0, 0, "d", cc)))
+    return out
+
+
+def euler_sequence(n):
+    """a closed walk through 0..n-1 in which every ordered pair (x, y), x != y, occurs once as consecutive elements"""
+    nxt = {v: [w for w in range(n) if w != v] for v in range(n)}
+    stack, walk = [0], []
+    while stack:
+        v = stack[-1]
+        if nxt[v]:
+            stack.append(nxt[v].pop(0))
+        else:
+            walk.append(stack.pop())
+    return walk[::-1]
+
+
+def j_program(prefix, al):
+    """files: the prefix levels and every base variant under a uri of its own; ctx chooses among them"""
+    L = len(prefix) + 1
+    files = {}
+    for i, spec in enumerate(prefix):
+        files[al["uri"] % i] = ir._memo_file(("J", i, L, spec, al["n1"], al["uri"]), i, L, spec, al, ir.PROBES_M12, "**kw")
+    bases = []
+    for n, (m1, m2) in enumerate(J_BASES):
+        spec = (m1, m2, 0, 0, 0, 0, "s", "n")
+        bal = dict(al, fill=al["fill"] + "#%d" % n)
+        uri = al["uri"] % (20 + n)
+        files[uri] = ir._memo_file(("Jb", n, L, al["n1"], al["uri"]), L - 1, L, spec, bal, ir.PROBES_M12, "**kw")
+        bases.append(uri)
+    return {"files": files, "main": al["uri"] % 0, "ctx": {"P": "@helper:P", "A": "@helper:A"}}, bases
+
+
+def check_history(prefix, seq, seed, st, minimise=True):
+    """one fresh lookup and one set of Template objects; the page is rendered once per element of seq, the
+    inherit target being base seq[k]; every render must be what the reference says (= what a fresh lookup gives).
+    returns the number of renders that agreed"""
+    al = ir.alphabet(seed)
+    prog, bases = j_program(prefix, al)
+    texts = ir.print_program(prog)
+    key = "up%d" % len(prefix)
+    R = Runner()
+    for step, b in enumerate(seq):
+        ctxj = dict(prog["ctx"], **{key: bases[b]})
+        ctx = c06_env.resolve_ctx(ctxj)
+        exp, ref = ir.reference(prog, ctx)
+        st.oracles["reference"] += 1
+        obs = R.render(texts, prog["main"], ctx, ref.callables)
+        st.evaluations += 1
+        st.transitions += ref.steps
+        st.outcomes[("J", len(prefix) + 1, "first" if step == 0 else "later", exp[0] if exp[0] != "err" else "err:" + exp[1])] += 1
+        if exp[0] == "dontcare" or obs == exp:
+            continue
+        case = {"kind": "history", "seed": seed, "prefix": [list(s) for s in prefix], "seq": list(seq[: step + 1]), "files": {u: t for u, t in texts.items() if u not in bases or u == bases[b]}, "ctx": ctxj}
+        if Runner().render(texts, prog["main"], ctx, ref.callables) != exp:
+            case["seq"] = [b]
+            st.violation(chain_sig(exp, obs, al), case, "reference: rendered output / error class differs from the class-chain model", expected=list(exp), observed=list(obs))
+            return step
+        if minimise and step > 1:
+            # is the render before it enough?
+            st2 = Stats()
+            check_history(prefix, seq[step - 1 : step + 1], seed, st2, minimise=False)
+            if st2.violations:
+                st.violation(st2.violations[0]["sig"], st2.violations[0]["case"], st2.violations[0]["oracle"], expected=list(exp), observed=st2.violations[0]["observed"])
+                return step
+        st.violation("history:" + chain_sig(exp, obs, al), case, "rerender: a render differs from the same render on a fresh lookup after earlier renders on the same lookup and Template objects (state kept between renders)", expected=list(exp), observed=list(obs))
+        return step
+    return len(seq)
 
 
 # --------------------------------------------------------------------------
@@ -399,6 +549,10 @@ def plan(tier, seed):
         for sh in range(ns):
             jobs.append({"kind": "chains", "tier": tier, "seed": seed, "grid": gi, "shard": sh, "nshards": ns, "size": n})
     jobs.append({"kind": "grid", "tier": tier, "seed": seed})
+    npre = len(j_prefixes(tier))
+    nsj = 4 if tier == "quick" else 16
+    for sh in range(nsj):
+        jobs.append({"kind": "pairs", "tier": tier, "seed": seed, "shard": sh, "nshards": nsj, "size": npre * 73 * 4})
     # biggest first, so that the pool ends evenly; seed permutes nothing else
     jobs.sort(key=lambda j: -(j.get("size", 0) // j.get("nshards", 1)))
     return jobs
@@ -430,6 +584,21 @@ def _run_job(job, st):
                 st.nontrivial += 1
         st.extra["grid_cases"] = len(seen)
         st.sample({"kind": "grid", "case": list(cases[20]), "text": ir.print_file(ir.grid_file(cases[20], ir.alphabet(seed)))})
+        return st
+    if job["kind"] == "pairs":
+        seq = euler_sequence(len(J_BASES))
+        n = 0
+        for pi, prefix in enumerate(j_prefixes(job["tier"])):
+            if pi % job["nshards"] != job["shard"]:
+                continue
+            done = check_history(prefix, seq, seed, st)
+            st.traces += 1
+            n += max(0, done - 1)
+            if pi % 29 == 0:
+                st.sample({"family": "J", "prefix": [list(s) for s in prefix], "bases (m1, m2)": [list(b) for b in J_BASES], "renders": len(seq)})
+        st.states += n  # ordered pairs of consecutive renders (every ordered pair of distinct bases occurs once)
+        st.nontrivial += n
+        st.extra["pairs_J"] = n
         return st
     g = ir.grids(job["tier"])[job["grid"]]
     fam, L = g[0], g[1]
@@ -464,11 +633,25 @@ def _run_job(job, st):
 def replay(case):
     core.bind_repo()
     st = Stats()
+    if case["kind"] == "unreplayable":
+        return None, "seen on Template objects shared with earlier chains of a worker; no replay"
     if case["kind"] == "grid":
         check_grid_case(tuple(case["case"]), case["seed"], st, case["mode"])
+    elif case["kind"] == "history":
+        check_history(tuple(tuple(s) for s in case["prefix"]), list(case["seq"]), case["seed"], st, minimise=False)
     else:
-        chain = [tuple(s) for s in case["chain"]]
+        chain = tuple(tuple(s) for s in case["chain"])
         g = (case["family"], len(chain), None, [tuple(p) for p in case["probes"]], case.get("defsig", ""))
+        if case.get("shared"):
+            # an order-dependent case and its prelude: one lookup and one set of Template objects for the whole
+            # sequence of replays of this interpreter
+            global _replay_runner
+            if _replay_runner is None:
+                _replay_runner = Runner()
+            exp, obs, _t = _plain_render(g, chain, case["seed"], _replay_runner)
+            if obs != exp:
+                return False, "reproduced: expected=%r observed=%r" % (exp, obs)
+            return True, "holds"
         check_chain(g, chain, case["seed"], st, Runner(), twice=bool(case.get("twice")))  # fresh lookup and templates
     if st.violations:
         v = st.violations[0]
@@ -499,7 +682,7 @@ def corpus(limit=400):
             yield {"files": ir.print_program(prog), "main": prog["main"], "ctx": dict(prog["ctx"]), "expected": exp[1] if exp[0] == "out" else None, "template_kwargs": {}}
 
     for g in ir.grids("quick"):
-        if g[1] in (2, 3) and g[0] in ("A", "C", "D", "E", "F", "G", "H", "I"):
+        if g[1] in (2, 3) and g[0] in ("A", "C", "D", "E", "F", "G", "H"):  # I, K print uris; J is a history
             n = ir.grid_size(g)
             streams.append(chain_stream(g, max(1, n // 97) | 1))  # odd stride: spread over all option positions
 
